@@ -19,6 +19,7 @@ import NemoVerif.Lemmas.SerializeRefs
 import NemoVerif.Lemmas.SerializeLossy
 import NemoVerif.Lemmas.SerializeShared
 import NemoVerif.Lemmas.SerializeErase
+import NemoVerif.Lemmas.SerializeIndex
 import NemoVerif.Models.CoreVM.Run
 import NemoVerif.Lemmas.CleanUpBisimWrites
 namespace NemoVerif.C11
@@ -365,6 +366,25 @@ example :
   · simp [encode, encodeList, encodeVals, allStr, Key.isStr, bind, Except.bind, pure, Except.pure, Except.toOption]
 
 end EraseLink
+
+/-! ## T3 (restore), the index component: the dispatch maps of every CoreVM state survive save/restore -/
+
+section RestoreIndex
+open NemoVerif.CoreIndex
+
+/-- `state.event_matching_heads` (str-keyed dict of lists of `(flow_uid, head_uid)` tuples) and
+    `state.event_matching_heads_reverse_map` (a dict whose KEYS are such tuples: an item list since the repair d13eeb5) of
+    EVERY index state come back from `decode_from_dict ∘ json ∘ encode_to_dict` unchanged … -/
+theorem index_maps_roundtrip (ix : IState) : (encode (mapsPV ix) >>= decode) = .ok (mapsPV ix) :=
+  roundtrip_tree _ (mapsPV_encodable ix)
+
+/-- … and that reading of the maps is faithful (equal Python values ⇒ equal maps): the restored index component of a
+    CoreVM state IS the saved one, so C09's theorems about it (`IndexOK`: exact, consistent, owned) hold of the restored state.
+    (`json_to_state` re-creates the head callbacks; in the model a callback is the `applyOp` discipline itself.) -/
+theorem index_maps_faithful (ix ix' : IState) (h : mapsPV ix = mapsPV ix') : ix.index = ix'.index ∧ ix.rev = ix'.rev :=
+  mapsPV_inj ix ix' h
+
+end RestoreIndex
 
 /-! ## T3, the part that is proved: `CoreVM` does not depend on what `_clean_up_state` removes — function by function
 
